@@ -464,8 +464,8 @@ Local Notation INV := (Inv hstep step h0 s0).
 Local Notation rel := (H -> S -> lstate -> Prop).
 
 Definition in_ign (P : line -> Prop) (R : rel) : Prop :=
-  forall h x s l, P l -> R h x s ->
-    step x (EIn l) = Some x /\ (forall h', hstep h (EIn l) = Some h' -> h' = h).
+  forall h x s l h' x', P l -> R h x s ->
+    hstep h (EIn l) = Some h' -> step x (EIn l) = Some x' -> R h' x' s.
 
 Definition out_ign (l : line) : Prop :=
   is_desync (EOut l) = false /\ forall h x, hstep h (EOut l) = Some h /\ step x (EOut l) = Some x.
@@ -485,8 +485,7 @@ Lemma Inv_after_in : forall (P : line -> Prop) (R : rel) l w,
   in_ign P R -> P l -> INV (after_in hstep step R l) w -> INV R w.
 Proof.
   intros P R l w HP Pl. apply Inv_weaken. intros h' x' _ [h [x [HR [_ [E1 E2]]]]].
-  destruct (HP h x _ l Pl HR) as [F1 F2]. rewrite F1 in E2. inversion E2; subst.
-  rewrite (F2 _ E1). exact HR.
+  eapply HP; eauto.
 Qed.
 
 Lemma Inv_pull_ign : forall (R : rel) picks w o w',
